@@ -10,7 +10,6 @@ import (
 	"io"
 	mrand "math/rand"
 	"os"
-	"path/filepath"
 	"strconv"
 
 	"verifharness/internal/ev"
@@ -77,7 +76,7 @@ func Replay(in string, w *ev.Writer, out string) error {
 				if v.Vec%4 == 3 {
 					via = "file"
 				}
-				Cfg(w, via, v.Variant, sv, text, filepath.Dir(out), x)
+				Cfg(w, via, v.Variant, sv, text, out, x)
 			default:
 				return fmt.Errorf("vector %d: unknown kind %q", v.Vec, v.K)
 			}
@@ -230,9 +229,9 @@ func randServer(r *mrand.Rand) Server {
 func Drive(w *ev.Writer, o Opts) error {
 	w.Sync = true
 	r := mrand.New(mrand.NewSource(o.Seed*1000003 + int64(o.Shard)*7919 + 41))
-	n := 150
+	n := 400
 	if o.Tier == "thorough" {
-		n = 2500
+		n = 8000
 	}
 	switch o.Part {
 	case "dns":
@@ -256,7 +255,7 @@ func Drive(w *ev.Writer, o Opts) error {
 			if i%5 == 4 {
 				via = "file"
 			}
-			Cfg(w, via, "canon", sv, canonFile(sv), filepath.Dir(o.Out), nil)
+			Cfg(w, via, "canon", sv, canonFile(sv), o.Out, nil)
 		}
 	default:
 		return fmt.Errorf("X06: -part dns|cfg")
